@@ -4,7 +4,10 @@ Correspondence: real slot package + real DPoS.IsBlockValid/VerifySign/VerifyTime
 Gallina model evaluated by vm_compute on the same cases."""
 import json
 import os
+import sys
 import vf
+sys.path.insert(0, os.path.join(vf.VERIF, "lib"))
+import c09chain
 
 META = {
     "text": "Theorems (Coq, no axioms) over the slot/membership/acceptance model: every instant has exactly one owning producer index, "
@@ -61,7 +64,12 @@ def gen_slot_cases(ctx):
 
 
 def run(ctx):
+    import time
+    T = {}
+    ctx.cov["timing_s"] = T
+    t0 = time.time()
     pr = ctx.prove()
+    T["prove"] = round(time.time() - t0, 1)
     ctx.cov["trusted_base"] = [
         "Coq 8.16.1 kernel + vm_compute", "Go toolchain", "overlay build of package dpos (VM stub irrelevant here)",
         "libp2p secp256k1 (signature oracle)", "case generator checks/C09.py",
@@ -264,14 +272,84 @@ def run(ctx):
                                      "blocks_valid": sum(1 for o in obs if o["valid"]),
                                      "blocks_nonmember": sum(1 for o in obs if o["idx"] == 65535)}
 
+    # ---- chain level: the real ChainService fed with real signed blocks in every order
+    T["slot+dpos"] = round(time.time() - t0 - T["prove"], 1)
+    t1 = time.time()
+    chain_fail, chain_broken = chain_level(ctx)
+    T["chain"] = round(time.time() - t1, 1)
+    pred_fail = chain_fail + pred_fail
+    corr_broken = chain_broken or corr_broken
+
     # ---- decide
-    for what, case in pred_fail[:3]:
-        ctx.finding("C09:" + what.split(" ")[0], what, case)
+    seen = set()
+    for f in pred_fail:
+        key, what, case = f if len(f) == 3 else ("C09:" + f[0].split(" ")[0], f[0], f[1])
+        if key in seen or len(seen) >= 4:
+            continue
+        seen.add(key)
+        ctx.finding(key, what, case)
+    pred_fail = [f for f in pred_fail if not (len(f) == 3 and ctx.known_match(f[0]))]
     if not pr["ok"] and not pred_fail:
         ctx.violation("proof obligation no longer checks: %s" % pr["broken"], {"theorem_or_file": pr["broken"], "log": pr["log"][-3000:]}, no_input=True)
     if corr_broken and not pred_fail:
         ctx.violation("correspondence broken: " + corr_broken[0], {"correspondence": corr_broken[0], "cases": corr_broken[1]},
                       no_input=True)
+
+
+def chain_level(ctx):
+    """Correspondence of coq/Dpos/Accept.v with chain/chainhandle.go (+ orphanpool, reorg) under the
+    DPoS verification functions, and the property itself on the engine's observations."""
+    rc, log, chainbin = ctx.go_test_binary(
+        "chain", [os.path.join(vf.HARNESS, "engines/c09chain/zz_verif_c09chain_engine_test.go")], "c09chain.test")
+    if rc != 0:
+        raise RuntimeError("c09chain engine build failed:\n" + log[-3000:])
+    quick = ctx.tier == "quick"
+    S = c09chain.load_corpus(os.path.join(vf.VERIF, "corpus", "C09"))
+    ncorpus = len(S)
+    fam = c09chain.small_tree_family(["nonmember", "wrongslot", "wrongkey", "future"])
+    if quick:
+        fam = ctx.rng.sample(fam, 40)
+    S += fam
+    S += [c09chain.random_scenario(ctx.rng, i) for i in range(110 if quick else 4000)]
+    fails, broken = [], None
+    CHUNK = 400
+    narr = 0
+    classes = {}
+    nontriv = set()
+    for c0 in range(0, len(S), CHUNK):
+        part = S[c0:c0 + CHUNK]
+        import time
+        t2 = time.time()
+        outs = c09chain.run_engine(ctx, chainbin, part, tag="c09chain%d" % (c0 // CHUNK))
+        ctx.cov["timing_s"]["chain_engine"] = round(ctx.cov["timing_s"].get("chain_engine", 0) + time.time() - t2, 1)
+        for sc, out in zip(part, outs):
+            fails += c09chain.direct_predicates(sc, out)
+            narr += len(out["obs"])
+            for ob in out["obs"]:
+                classes[ob["r"]] = classes.get(ob["r"], 0) + 1
+                nontriv.add((ob["r"], c09chain.call_shape(ob["calls"])))
+        txt, k = c09chain.coq_cases(part, outs)
+        rc, out = ctx.coq_eval("chain_cases%d" % (c0 // CHUNK), txt)
+        d = c09chain.parse_diffs(out, k) if rc == 0 else None
+        if d is None or len(d) != len(part):
+            broken = broken or ("chain-level correspondence could not be evaluated", out[-2000:])
+            continue
+        for sc, o, x in zip(part, outs, d):
+            if x and not broken:
+                broken = ("model (Dpos/Accept.v) and ChainService differ at arrival %d of scenario %s" % (x - 1, sc["name"]),
+                          dict(scenario=sc, blocks=o["blocks"], arrivals=o["obs"][:x]))
+        if c0 == 0:
+            ctx.sample({"chain_scenario": part[0]["name"], "blocks": outs[0]["blocks"],
+                        "arrivals": [{k2: v for k2, v in ob.items() if k2 in ("id", "r", "calls", "main", "orph")} for ob in outs[0]["obs"]]})
+    ctx.cov["evaluations"] = ctx.cov.get("evaluations", 0) + narr
+    ctx.cov["traces_validated_against_impl"] = ctx.cov.get("traces_validated_against_impl", 0) + narr
+    ctx.cov["distinct_nontrivial"] = ctx.cov.get("distinct_nontrivial", 0) + len(nontriv)
+    ctx.cov["rule"] = ctx.cov.get("rule", "") + ("; chain level: arrivals of signed blocks at a real ChainService (trees <= 7 blocks, every "
+                                                 "defect kind, any order, duplicates, producer-set changes), distinct = distinct (result class, "
+                                                 "sequence of consensus call kinds) pairs")
+    ctx.cov["chain_level"] = {"scenarios": len(S), "corpus": ncorpus, "arrivals": narr, "result_classes": classes,
+                              "distinct_(result,call-shape)": len(nontriv)}
+    return fails, broken
 
 
 def parse_all(out):
